@@ -579,3 +579,24 @@ Print Assumptions c12_nonvacuous_recv_response.
 Print Assumptions c12_nonvacuous_recv_body.
 Print Assumptions c12_session.
 Print Assumptions c12_nonvacuous_session.
+
+(* ================================================================== the decoder's code itself (translated from the source) *)
+(** The chunked decoder as it is in src/chunk.rs now (theories/Gen2.v, regenerated by tools/rs2coq2.py on every run) panics
+    exactly when the model does (proofs/Gen2_equiv_chunk.v), so from every between-calls state it never panics on any bytes,
+    never runs out of fuel (the loop of the translation carries the same fuel as the model's), and fails exactly when the model
+    fails.  Trusted: the translator. *)
+From Hoot Require Import GenLib Gen2.
+From Hoot.proofs Require Import Gen2_equiv_chunk.
+Theorem c12_code_decoder_no_panic : forall d src dst s,
+  d <> DTrailer -> gen_dech_parse_input d src dst <> Panic s.
+Proof.
+  intros d src dst s Hd H.
+  assert (Hp : exists s', parse_input d src (len dst) = Panic s') by (apply gen_parse_input_panic; eauto).
+  destruct Hp as [s' Hp]. pose proof (parse_input_safe d src (len dst)) as Hs.
+  rewrite Hp in Hs. apply Hs. exact Hd.
+Qed.
+Theorem c12_code_decoder_err : forall d src dst e,
+  gen_dech_parse_input d src dst = Err e <-> parse_input d src (len dst) = Err e.
+Proof. exact gen_parse_input_err. Qed.
+Print Assumptions c12_code_decoder_no_panic.
+Print Assumptions c12_code_decoder_err.
